@@ -187,8 +187,8 @@ def run(chk):
     for _ in progs:
         env = {}
         for i in range(3):
-            if rng.random() < 0.75:
-                env[i] = [rng.randint(5, 9) * 10 + i for _ in range(rng.choice([1, 1, 1, 2, 0]))]
+            if rng.random() < 0.93:
+                env[i] = [rng.randint(5, 9) * 10 + i for _ in range(rng.choice([1, 1, 1, 1, 2, 0]))]
         envs.append(env)
     terms = []
     for e, env in zip(progs, envs):
@@ -228,20 +228,31 @@ def run(chk):
         desc = {'expr': text, 'variables': repr(variables)}
         if snapshot(variables) != before:
             chk.violation('impl-vs-spec', desc, {'caller variables before': before, 'after': snapshot(variables)})
-        vals = set(map(repr, outs.values()))
-        if len(vals) > 1:
-            chk.violation('impl-vs-spec', desc, {'entry points disagree': {f'{k[0]}/{k[1]}': repr(v) for k, v in outs.items()}})
+        # the entry points of one parser agree (2.0 and 3.1 are different languages: they may differ in which errors a
+        # lazily evaluated subexpression gets to raise)
+        for P in parsers:
+            vals = {repr(v) for k, v in outs.items() if k[0] == P.__name__}
+            if len(vals) > 1:
+                chk.violation('impl-vs-spec', desc, {'entry points disagree': {f'{k[0]}/{k[1]}': repr(v) for k, v in outs.items() if k[0] == P.__name__}})
         if mo is None or not outs:
             continue
         mi, msp, wf = (mo[0], mo[1]), tuple(mo[2]), mo[3]       # Coq prints (((a, b), (c, d)), w) as (a, b, (c, d), w)
-        got = next(iter(outs.values()))
-        gotn = (1, got[1]) if got[0] == 'val' else (0, [])
         if not wf:
             continue        # generator avoids these; parser rejects them
-        if gotn != (mi[0], list(mi[1])):
-            chk.corr_fail.append((desc, got, mi))
-        if gotn != (msp[0], list(msp[1])):
-            chk.violation('impl-vs-spec', desc, {'impl': got, 'lexical scoping': msp, 'model': mi})
+        for P in parsers:
+            got = outs.get((P.__name__, 'select'))
+            if got is None:
+                continue
+            gotn = (1, got[1]) if got[0] == 'val' else (0, [])
+            if mi[0] == 0 or msp[0] == 0:
+                # the eager model raises an error: XPath lets an implementation skip the failing subexpression (a quantifier
+                # that already has its answer), so a value cannot be judged here; an error is the model's answer
+                chk.count('calc:model-error')
+                continue
+            if gotn != (mi[0], list(mi[1])):
+                chk.corr_fail.append((desc | {'parser': P.__name__}, got, mi))
+            if gotn != (msp[0], list(msp[1])):
+                chk.violation('impl-vs-spec', desc | {'parser': P.__name__}, {'impl': got, 'lexical scoping': msp, 'model': mi})
         chk.nontrivial.add(text + repr(sorted(variables)))
         if i % 53 == 0:
             chk.sample({'expr': text, 'variables': repr(variables), 'model': mi, 'spec': msp})
